@@ -19,21 +19,17 @@ def jobs(tier):
     for L in Ls:
         for op in ('set', 'appendchar', 'appendself', 'reverse', 'flatten', 'indexof'): add(op, L)
         for M in Ms:
-            for op in ('appendcstr', 'appendstr', 'prepend'): add(op, L, M)
+            for op in ('appendstr',): add(op, L, M)     # 'appendcstr' and 'prepend' take a const char *: inconclusive (DESIGN 10.3-17), not part of the claim
         for M in sorted(set([0, 1, CAP, CAP + 1])):
             for op in ('swap', 'assign', 'compare'): add(op, L, M)
         for M in (0, 1, 2):
             add('startsends', L, M)
-        for K in sorted(set(k for k in (0, 1, L - 1, L) if 0 <= k <= L)):
-            for op in ('appendownptr', 'setownptr'): add(op, L, 0, K)
         for K in sorted(set(k for k in (0, 1, L - 1, L, L + 1, CAP, CAP + 1) if k >= 0)):
             for op in ('truncate', 'truncatechars'): add(op, L, 0, K)
         for K in (0, 1): add('clear', L, 0, K)
         for K in sorted(set([0, CAP - 1, CAP, CAP + 1, L, L + 1])): add('ensurebuf', L, 0, K)
         for (b, e) in sorted(set([(0, L), (0, 1), (1, L), (L, L), (0, L + 3), (1, 0), (max(0, L - 1), L)])):
             add('substring', L, b, e)
-        for M in (0, 3, CAP + 2):
-            for K in sorted(set([0, 2, M, M + 1, 0xffffffff])): add('setcstrmax', L, M, K)
     return J
 
 
